@@ -26,6 +26,9 @@ var cfgAlts = []cfgAlt{
 	// names that extend one another: export directory "layers-export" beside "layers", upper
 	// directory "build.upper" beside the build root "build"
 	{VB, VB + "/layers", "build", "build.work", "build.upper", "packages", "packages.gen", VB + "/layers-export", "p", "pg"},
+	// an equals sign and a comma's neighbour in the path of the layers directory (overlay
+	// options are key=value lists)
+	{VB, VB + "/cake=17.1/lay ers", "build", "overlayfs/workdir", "overlayfs/upperdir", "packages", "generated", VB + "/export", "pkgs=amd64", "generated"},
 	// a build root two levels down
 	{VB, VB + "/layers", "b/root", "overlayfs/workdir", "overlayfs/upperdir", "packages", "generated", VB + "/export", "packages", "generated"},
 }
